@@ -2203,3 +2203,217 @@ if __name__ == "__main__":
     else:
         regenerate(sys.argv[1] if len(sys.argv) > 1 else None)
         print("wrote", OUT)
+
+
+# ----------------------------------------------------------------------------------------------
+# self test: a synthetic package with one instance of every leak shape (and of every harmless shape)
+# ----------------------------------------------------------------------------------------------
+SELFTEST_FILES = {
+    "__init__.py": "from . import a, b\n",
+    "a.py": '''
+import functools
+from collections import deque
+
+TABLE = {"x": 1, "y": 2}                 # const: only read
+NESTED = {"f": {"w": 0}, "g": {"w": 1}}  # const: elements copied before use
+LEAKY_NESTED = {"f": {"w": 0}}           # dirty: inner dict handed out without a copy
+QUEUE = deque()                          # kill first: reset at the start of run()
+QUEUE2 = deque()                         # dirty: never reset
+COUNTER = 0                              # dirty: global counter
+_CACHE = {}                              # dirty: module level memo
+
+
+def lookup(k):
+    return TABLE[k] + len(TABLE)
+
+
+def fresh(k):
+    d = NESTED[k].copy()
+    d["w"] = 5
+    return d
+
+
+def leak(k):
+    d = LEAKY_NESTED[k]
+    d["w"] = d["w"] + 1
+    return d["w"]
+
+
+def run(items):
+    global QUEUE
+    QUEUE = deque()
+
+    def push(i):
+        QUEUE.append(i)
+
+    def drain():
+        out = []
+        while QUEUE:
+            out.append(QUEUE.popleft())
+        return out
+    for i in items:
+        push(i)
+    return drain()
+
+
+def run2(items):
+    for i in items:
+        QUEUE2.append(i)
+    return len(QUEUE2)
+
+
+def tick():
+    global COUNTER
+    COUNTER += 1
+    return COUNTER
+
+
+def memo(k):
+    if k not in _CACHE:
+        _CACHE[k] = k * 2
+    return _CACHE[k]
+
+
+def bad_default(x, acc=[]):
+    acc.append(x)
+    return acc
+
+
+def ok_default(x, table=(1, 2, 3), names=["a", "b"]):
+    return x in table or x in names
+
+
+@functools.lru_cache(maxsize=None)
+def cached(x):
+    return x + 1
+
+
+def factory(name, types=None):
+    def deco(func):
+        def setter(self, value):
+            nonlocal types
+            if isinstance(types, tuple) and len(types) == 0:
+                types = type(self)
+            if not isinstance(value, types):
+                raise TypeError(name)
+            setattr(self, name, value)
+        return property(func).setter(setter)
+    return deco
+
+
+def local_cells(n):
+    total = 0
+
+    def add(i):
+        nonlocal total
+        total += i
+    for i in range(n):
+        add(i)
+    return total
+''',
+    "b.py": '''
+from .a import factory
+
+
+class Log:
+    def __init__(self):
+        self._items = []
+
+    def add(self, x):
+        self._items.append(x)
+
+    def take(self):
+        ret = self._items
+        self._items = []
+        return ret
+
+    def __len__(self):
+        return len(self._items)
+
+
+class Engine:
+    log = Log()                      # singleton
+    OPTIONS = {"a": 1}               # const
+    registry = []                    # dirty: instances register themselves
+
+    def __init__(self):
+        self.registry.append(self)
+
+    def restart(self):
+        self.log.take()
+
+    def work(self, x):
+        self.restart()
+        if x < 0:
+            self.log.add(x)
+        return len(self.log) == 0
+
+    def sloppy(self, x):
+        if x < 0:
+            self.log.add(x)
+        return len(self.log) == 0
+
+    @classmethod
+    def configure(cls, v):
+        cls.mode = v
+
+    def describe(self):
+        return (self.mode, len(self.registry))
+
+    @factory("_peer", ())
+    def peer(self):
+        pass
+
+    @factory("_size", int)
+    def size(self):
+        pass
+
+
+class Thing:
+    engine = Engine()                # singleton whose methods write self attributes
+
+    def __deepcopy__(self, memo):
+        return self
+''',
+}
+
+SELFTEST_EXPECT = {
+    "a.py:TABLE": "SConst", "a.py:NESTED": "SConst", "a.py:LEAKY_NESTED": "SDirty", "a.py:QUEUE": "SKillFirst",
+    "a.py:QUEUE2": "SDirty", "a.py:COUNTER": "SDirty", "a.py:_CACHE": "SDirty",
+    "a.py:bad_default(acc=)": "SDirty", "a.py:ok_default(names=)": "SConst", "a.py:cached@functools.lru_cache": "SDirty",
+    "a.py:factory.<cell types>@Engine.peer": "SDirty", "a.py:factory.<cell types>@Engine.size": "SConst",
+    "b.py:Engine.OPTIONS": "SConst", "b.py:Engine.registry": "SDirty", "b.py:Engine.mode": "SDirty",
+    "<Log>._items": "SDirty",        # Engine.sloppy reads the log without restarting
+}
+
+
+def selftest():
+    """run the analysis on the synthetic package; returns the list of disagreements with SELFTEST_EXPECT"""
+    import tempfile
+    import shutil
+    d = tempfile.mkdtemp(prefix="/tmp/C17-selftest-")
+    try:
+        os.makedirs(os.path.join(d, "montepy"))
+        for n, t in SELFTEST_FILES.items():
+            with open(os.path.join(d, "montepy", n), "w") as fh:
+                fh.write(t)
+        res = analyse(d)
+        got = {r.site.name: r.status for r in res.rows}
+        bad = []
+        for k, v in SELFTEST_EXPECT.items():
+            if got.get(k) != v:
+                bad.append({"site": k, "expected": v, "got": got.get(k)})
+        if "a.py:local_cells.<cell total>@a.py:local_cells" in got or any("local_cells" in k for k in got):
+            bad.append({"site": "local_cells", "expected": "no site (the cell dies with the call)", "got": "site"})
+        if res.copy_hooks != ["b.py:Thing.__deepcopy__"]:
+            bad.append({"site": "copy hooks", "expected": ["b.py:Thing.__deepcopy__"], "got": res.copy_hooks})
+        # the work() entry kills before it reads, sloppy() does not
+        log = [r for r in res.rows if r.site.name == "<Log>._items"]
+        if log:
+            ents = {e.qual: sm for e, sm, w in log[0].entries}
+            if ents.get("b.py:Engine.work") not in ("kill", "none") or ents.get("b.py:Engine.sloppy") != "dirty":
+                bad.append({"site": "<Log>._items entries", "expected": "work: kill, sloppy: dirty",
+                            "got": {k: v for k, v in ents.items() if "Engine" in k}})
+        return bad
+    finally:
+        shutil.rmtree(d, ignore_errors=True)
